@@ -37,6 +37,7 @@ def _classpath():
 
 
 _STATS = re.compile(r"(\d+) states generated, (\d+) distinct states found")
+_SIMSTATS = re.compile(r"The number of states generated: (\d+)")
 
 
 def run_tlc(module, cfg, env, workers=16, timeout=3600, simulate=None, extra=None, heap="6g"):
@@ -66,6 +67,10 @@ def run_tlc(module, cfg, env, workers=16, timeout=3600, simulate=None, extra=Non
         if m:
             stats["generated"] = int(m.group(1))
             stats["distinct"] = int(m.group(2))
+        elif simulate:
+            ms = _SIMSTATS.search(out)
+            if ms:
+                stats["generated"] = stats["distinct"] = int(ms.group(1))
         if "is violated" in out or "Temporal properties were violated" in out:
             mm = re.search(r"Invariant (\S+) is violated", out)
             raise TLCViolation(mm.group(1) if mm else "temporal property", out)
@@ -294,5 +299,28 @@ def builder_orders(sizes, timeout=600):
                 orders.append(rec["order"])
         orders.sort()
         return orders, stats
+    finally:
+        shutil.rmtree(d, ignore_errors=True)
+
+
+def simulate_V(problems, num=2000, depth=80, seed=1, timeout=600, workers=8):
+    """Random complete behaviours of Timeline (TLC simulation mode) for problems too large to enumerate:
+    a SAMPLE of V(P) per problem (spec -> code at larger bounds)."""
+    d = tempfile.mkdtemp(prefix="simfam_")
+    try:
+        pf = os.path.join(d, "problems.json")
+        with open(pf, "w") as f:
+            json.dump(problems, f)
+        try:
+            lines, stats = run_tlc("MC_Timeline", "MC_Timeline.cfg", {"PROBLEMS_FILE": pf}, workers=workers, timeout=timeout,
+                                   simulate=f"num={num}", extra=["-depth", str(depth), "-seed", str(seed)])
+        except TLCError as ex:
+            raise
+        V = {p["id"]: {} for p in problems}
+        for rec in _json_lines(lines):
+            if "pid" in rec and "sched" in rec:
+                V[problems[rec["pid"] - 1]["id"]][key_of(rec)] = rec
+        V = {pid: dict(sorted(vs.items(), key=lambda kv: repr(kv[0]))) for pid, vs in V.items()}
+        return V, stats
     finally:
         shutil.rmtree(d, ignore_errors=True)
